@@ -37,7 +37,13 @@ def check(sql, provider, want_clause=None):
         r._eval()
     except Exception:
         return fails
-    for level, graph, compound in ((LineageLevel.TABLE, r._sql_holder.table_lineage_graph, False), (LineageLevel.COLUMN, r._sql_holder.column_lineage_graph, True)):
+    # the oracle views are computed here from the COMBINED graph, not through the holder's own view accessors
+    from sqllineage.core.models import Column, Path, Table
+
+    full = r._sql_holder.graph
+    table_view = full.subgraph([n for n in full.nodes if isinstance(n, (Table, Path))])
+    column_view = full.subgraph([n for n in full.nodes if isinstance(n, Column)])
+    for level, graph, compound in ((LineageLevel.TABLE, table_view, False), (LineageLevel.COLUMN, column_view, True)):
         exp = r.to_cytoscape(level)
         recs = [e["data"] for e in exp]
         edge_recs = [d for d in recs if "source" in d]
